@@ -115,40 +115,86 @@ pub fn dump(s: &GraphStore) -> RefGraph {
     for id in ids {
         let nid = NodeId::new(id);
         let n = s.get_node(nid).unwrap();
-        let props: BTreeMap<String, LV> = s.node_properties_full(nid).iter().filter(|(_, v)| !v.is_null()).map(|(k, v)| (k.clone(), LV::from_pv(v))).collect();
+        // a stored null-valued property is kept: keys()/properties() can observe it
+        let props: BTreeMap<String, LV> = s.node_properties_full(nid).iter().map(|(k, v)| (k.clone(), LV::from_pv(v))).collect();
         g.nodes.insert(id, RNode { labels: n.labels.iter().map(|l| l.as_str().to_string()).collect(), props });
         g.next_node = g.next_node.max(id + 1);
     }
     for e in s.all_edges() {
-        let props: BTreeMap<String, LV> = e.properties.iter().filter(|(_, v)| !v.is_null()).map(|(k, v)| (k.clone(), LV::from_pv(v))).collect();
+        let props: BTreeMap<String, LV> = e.properties.iter().map(|(k, v)| (k.clone(), LV::from_pv(v))).collect();
         g.rels.insert(e.id.as_u64(), RRel { src: e.source.as_u64(), dst: e.target.as_u64(), ty: e.edge_type.as_str().to_string(), props });
         g.next_rel = g.next_rel.max(e.id.as_u64() + 1);
     }
     g
 }
 
-/// Canonical form up to renaming of ids: brute force over node permutations (≤ 7 nodes).
+/// Canonical form up to renaming of ids. Nodes are first partitioned by iterated colour
+/// refinement (own content + multiset of incident relationships with the neighbour's colour);
+/// isolated nodes need no permutation; the remaining ambiguity (nodes of equal colour) is resolved
+/// by brute force over permutations within colour classes, taking the minimum.
 /// Two graphs are isomorphic iff their canonical forms are equal.
-pub fn canonical(g: &RefGraph) -> (Vec<RNode>, Vec<(usize, usize, String, BTreeMap<String, LV>)>) {
+pub type Canon = (Vec<RNode>, Vec<(usize, usize, String, BTreeMap<String, LV>)>);
+pub fn canonical(g: &RefGraph) -> Canon {
     let ids: Vec<u64> = g.nodes.keys().copied().collect();
     let n = ids.len();
-    assert!(n <= 7, "canonical(): too many nodes for brute force");
-    // sort nodes by their own content first; permute only within equal-content classes
+    let idx: BTreeMap<u64, usize> = ids.iter().enumerate().map(|(i, id)| (*id, i)).collect();
+    // initial colour = rank of node content
+    let mut contents: Vec<&RNode> = ids.iter().map(|id| &g.nodes[id]).collect();
+    contents.sort();
+    contents.dedup();
+    let mut colour: Vec<usize> = ids.iter().map(|id| contents.iter().position(|c| **c == g.nodes[id]).unwrap()).collect();
+    loop {
+        let mut sigs: Vec<(usize, Vec<(u8, String, BTreeMap<String, LV>, usize)>)> = Vec::with_capacity(n);
+        for (i, id) in ids.iter().enumerate() {
+            let mut inc = vec![];
+            for r in g.rels.values() {
+                if r.src == *id {
+                    inc.push((0u8, r.ty.clone(), r.props.clone(), idx.get(&r.dst).map(|j| colour[*j]).unwrap_or(usize::MAX)));
+                }
+                if r.dst == *id {
+                    inc.push((1u8, r.ty.clone(), r.props.clone(), idx.get(&r.src).map(|j| colour[*j]).unwrap_or(usize::MAX)));
+                }
+            }
+            inc.sort();
+            sigs.push((colour[i], inc));
+        }
+        let mut uniq = sigs.clone();
+        uniq.sort();
+        uniq.dedup();
+        let next: Vec<usize> = sigs.iter().map(|s| uniq.iter().position(|u| u == s).unwrap()).collect();
+        if next == colour {
+            break;
+        }
+        colour = next;
+    }
+    let connected: Vec<bool> = ids.iter().map(|id| g.rels.values().any(|r| r.src == *id || r.dst == *id)).collect();
+    // order: by colour; classes of connected nodes with > 1 member are permuted
     let mut order: Vec<usize> = (0..n).collect();
-    order.sort_by(|a, b| g.nodes[&ids[*a]].cmp(&g.nodes[&ids[*b]]));
-    let mut best: Option<(Vec<RNode>, Vec<(usize, usize, String, BTreeMap<String, LV>)>)> = None;
+    order.sort_by_key(|i| (colour[*i], *i));
+    let mut work: u64 = 1;
+    {
+        let mut k = 0;
+        while k < n {
+            let mut j = k;
+            while j < n && colour[order[j]] == colour[order[k]] {
+                j += 1;
+            }
+            if connected[order[k]] {
+                for f in 1..=(j - k) as u64 {
+                    work = work.saturating_mul(f);
+                }
+            }
+            k = j;
+        }
+    }
+    assert!(work <= 50_000, "canonical(): {work} permutations needed (too symmetric for brute force)");
+    let mut best: Option<Canon> = None;
     let mut perm = order.clone();
-    permute_classes(g, &ids, &mut perm, 0, &mut best);
+    permute_classes(g, &ids, &colour, &connected, &mut perm, 0, &mut best);
     best.unwrap_or((vec![], vec![]))
 }
 
-fn permute_classes(
-    g: &RefGraph,
-    ids: &[u64],
-    perm: &mut Vec<usize>,
-    k: usize,
-    best: &mut Option<(Vec<RNode>, Vec<(usize, usize, String, BTreeMap<String, LV>)>)>,
-) {
+fn permute_classes(g: &RefGraph, ids: &[u64], colour: &[usize], connected: &[bool], perm: &mut Vec<usize>, k: usize, best: &mut Option<Canon>) {
     let n = perm.len();
     if k == n {
         let pos: BTreeMap<u64, usize> = perm.iter().enumerate().map(|(i, p)| (ids[*p], i)).collect();
@@ -161,15 +207,18 @@ fn permute_classes(
         }
         return;
     }
-    // positions k..j share the same node content: try each as the k-th
+    if !connected[perm[k]] {
+        // isolated nodes of one colour are interchangeable
+        permute_classes(g, ids, colour, connected, perm, k + 1, best);
+        return;
+    }
     let mut j = k;
-    while j < n && g.nodes[&ids[perm[j]]] == g.nodes[&ids[perm[k]]] {
+    while j < n && colour[perm[j]] == colour[perm[k]] {
         j += 1;
     }
     for i in k..j {
         perm.swap(k, i);
-        // keep class contiguous: after the swap positions k+1..j are still the class
-        permute_classes(g, ids, perm, k + 1, best);
+        permute_classes(g, ids, colour, connected, perm, k + 1, best);
         perm.swap(k, i);
     }
 }
